@@ -49,7 +49,7 @@ var recC = vh.NewRecorder("C14", "banner-concurrent",
 		"under -race; oracle: every served frame page is byte-identical to the page rendered for the same URL on its own (it embeds the "+
 		"requested URL and nothing of another request); non-trivial = at least two requests overlapped (always)")
 
-func TestMain(m *testing.M) { vh.Main(m, recB, recS, recC) }
+func TestMain(m *testing.M) { vh.Main(m, recB, recS, recC, recHist) }
 
 // ------------------------------------------------------------ banner
 
@@ -801,6 +801,16 @@ func TestReplay(t *testing.T) {
 	var s ShimCase
 	if ok, _ := vh.ReplayCase("shim-script", &s); ok {
 		recS.Check(t, &s, func() vh.Outcome { return runShim(&s) })
+		return
+	}
+	var hc HistCase
+	if ok, _ := vh.ReplayCase("banner-history", &hc); ok {
+		recHist.Check(t, &hc, func() vh.Outcome { return runHist(&hc) })
+		return
+	}
+	var cc ConcCase
+	if ok, _ := vh.ReplayCase("banner-concurrent", &cc); ok {
+		recC.Check(t, &cc, func() vh.Outcome { return runBannerConcurrent(&cc) })
 		return
 	}
 	t.Skip("no replay for this package")
